@@ -240,6 +240,13 @@ func (e *Engine) evalIdent(c *evalCtx, name string) Val {
 	if v, ok := c.env[name]; ok {
 		return v
 	}
+	// captured variable of a closure under contract: read through the capture pointer in the state being evaluated
+	if p, ok := c.env["&"+name]; ok {
+		if isPointer(p.T) {
+			return c.st.loadAt(ptrInfo(p), deref(p.T))
+		}
+		return p
+	}
 	if v, ok := c.st.ghost[name]; ok {
 		return v
 	}
@@ -849,6 +856,8 @@ func (e *Engine) evalCall(c *evalCtx, n *ECall) Val {
 			a := e.eval(c, n.Args[0])
 			b := e.eval(c, n.Args[1])
 			return boolVal(And(Eq(a.sLen(), b.sLen()), Or(Eq(a.sLen(), BVConst(0, 64)), And(Eq(a.sRef(), b.sRef()), Eq(a.sOff(), b.sOff())))))
+		case "smhas", "smget":
+			return e.evalSyncMapBuiltin(c, id.Name, n.Args)
 		case "closed":
 			ch := e.eval(c, n.Args[0])
 			return boolVal(c.st.loadLeaf("chan|closed", []*Term{ch.t()}, BoolSort))
